@@ -1,4 +1,4 @@
-import CollectionsC.Proofs.ArraySized5
+import CollectionsC.Proofs.ArraySized9
 /-! # C01 (sized half) — `CC_ArraySized` is an ideal sequence of byte records
 
 Statements only; the proofs live in `Proofs/SizedChunks.lean` (byte offsets → whole elements) and
@@ -42,7 +42,7 @@ theorem step_refines (a : ArraySized) (op : Spec.SSeq.Op Elem) (m : Mem) (h : a.
     MemSame a.triple m (a.step op m).2.2 ∧
     (a.refusal op m ≠ none → (a.step op m).2.1 = a) ∧
     (a.refusal op m = some .errAlloc → (m.allocT a.triple).1 = false) ∧
-    (a.refusal op m = some .errMaxCapacity → a.AtLimit) :=
+    (a.refusal op m = some .errMaxCapacity → a.AtLimit ∧ a.size = a.capacity) :=
   ArraySized.step_refines a op m h hw
 
 /-- **C01, sized arrays, all histories.**  From any state satisfying the invariant, every finite
@@ -72,12 +72,49 @@ theorem C01_sized_new (dl cap : Nat) (grow : Nat → Nat) (exGe : Nat → Bool) 
   rw [habs] at this
   exact this
 
-/-- Without a refusal every appending call succeeds: the allocator granted the request and the
-capacity is below `CC_MAX_ELEMENTS`. -/
-theorem add_succeeds (a : ArraySized) (e : Buf Nat) (m : Mem) (h : a.Inv)
-    (he : e.length = a.dataLen) (hal : (m.allocT a.triple).1 = true) (hc : ¬ a.AtLimit) :
-    (a.add e m).1 = .ok ∧ (a.add e m).2.1.abs = a.abs ++ [e] :=
-  add_ok_of_alloc a e m h he hal hc
+/-- An appending call succeeds whenever there is a free slot — whatever the allocator would answer —
+and on a full array whenever its allocator grants the request and the size limit is not reached. -/
+theorem add_succeeds (a : ArraySized) (e : Buf Nat) (m : Mem) (h : a.Inv) (he : e.length = a.dataLen)
+    (hc : a.size < a.capacity ∨ ((m.allocT a.triple).1 = true ∧ ¬ a.AtLimit)) :
+    (a.add e m).1 = .ok ∧ (a.add e m).2.1.abs = a.abs ++ [e] := ArraySized.add_succeeds a e m h he hc
+
+theorem addAt_succeeds (a : ArraySized) (e : Buf Nat) (i : Nat) (m : Mem) (h : a.Inv) (he : e.length = a.dataLen)
+    (hi : i ≤ a.size) (hc : a.size < a.capacity ∨ ((m.allocT a.triple).1 = true ∧ ¬ a.AtLimit)) :
+    (a.addAt e i m).1 = .ok ∧ (a.addAt e i m).2.1.abs = a.abs.insertIdx i e :=
+  ArraySized.addAt_succeeds a e i m h he hi hc
+
+/-- a dischargeable form of "not at the size limit": below half the element limit, with the next
+capacity (growth function's value, resp. `capacity + 1`) still within `CC_MAX_ELEMENTS` bytes.
+(An accepted array *can* stand at the limit from the start: `new esize=8 cap=1 exp=2^61` answers
+`CC_ERR_MAX_CAPACITY` to the second `add`; corpus `expand_byte_count_limit.ops`.) -/
+theorem not_atLimit (a : ArraySized) (hc : a.capacity < CC_MAX_ELEMENTS / 2)
+    (hg : a.grow a.capacity ≤ CC_MAX_ELEMENTS / a.dataLen) (h1 : a.capacity + 1 ≤ CC_MAX_ELEMENTS / a.dataLen) :
+    ¬ a.AtLimit := ArraySized.not_atLimit a hc hg h1
+
+/-- **history_unblocked**: on an allocator that grants every request (`Grants`: empty schedule, *or*
+an array on the C library allocator, which is never refused) a history during which the array never
+stands at its size limit is refused nowhere: the ideal sequence runs without any refusal input -/
+theorem history_unblocked (a : ArraySized) (ops : List (Spec.SSeq.Op Elem)) (m : Mem) (h : a.Inv)
+    (hw : ∀ op ∈ ops, OpWF a.dataLen op) (hg : Grants a.triple m)
+    (hl : ∀ k, k ≤ ops.length → ¬ (a.run (ops.take k) m).2.1.AtLimit) :
+    a.refusals ops m = List.replicate ops.length none ∧
+    (a.run ops m).1 = (Spec.SSeq.run a.abs ops (List.replicate ops.length none)).1 := by
+  have hr := run_unrefused ops a m h hw hg hl
+  exact ⟨hr, by rw [← hr]; exact (C01_sized a ops m h hw).1⟩
+
+/-- **the refusal oracle is pinned, for every schedule**: the `k`-th call of a history is reported
+refused only if, in the state reached by the first `k` calls, the array's own allocator refuses the
+request (`CC_ERR_ALLOC`) or the array is full and stands at its size limit (`CC_ERR_MAX_CAPACITY`);
+so `C01_sized` cannot be satisfied by a model that refuses at will -/
+theorem history_refusals_pinned (a : ArraySized) (ops : List (Spec.SSeq.Op Elem)) (m : Mem) (h : a.Inv)
+    (hw : ∀ op ∈ ops, OpWF a.dataLen op) (k : Nat) (op : Spec.SSeq.Op Elem) (hk : ops[k]? = some op) :
+    ((a.refusals ops m)[k]? = some (some .errAlloc) →
+      (((a.run (ops.take k) m).2.2).allocT (a.run (ops.take k) m).2.1.triple).1 = false) ∧
+    ((a.refusals ops m)[k]? = some (some .errMaxCapacity) →
+      (a.run (ops.take k) m).2.1.AtLimit ∧ (a.run (ops.take k) m).2.1.size = (a.run (ops.take k) m).2.1.capacity) ∧
+    ((a.refusals ops m)[k]? = some none ∨ (a.refusals ops m)[k]? = some (some .errAlloc) ∨
+      (a.refusals ops m)[k]? = some (some .errMaxCapacity)) :=
+  run_refusals_pinned ops a m h hw k op hk
 
 /-- **Private copy** (`_model`: nothing is missing from the proof, but the clause is true by the value
 semantics of the model — a model state holds bytes, not a pointer to the caller's buffer, so it
@@ -327,9 +364,9 @@ compares greater than its successor), `sort` leaves exactly the same multiset of
 ordered; the invariant and the configuration are kept. -/
 theorem C18_sized_sort (a : ArraySized) (sortFn : List Elem → List Elem) (gt : Elem → Elem → Prop)
     (h : a.Inv) (hperm : ∀ l, (sortFn l).Perm l) (hsorted : ∀ l, (sortFn l).Pairwise (fun x y => ¬ gt x y)) :
-    (a.sort sortFn).abs.Perm a.abs ∧ (a.sort sortFn).abs.Pairwise (fun x y => ¬ gt x y) ∧
-    (a.sort sortFn).Inv ∧ (a.sort sortFn).size = a.size := by
-  obtain ⟨s1, s2, _, _, _, s6⟩ := sort_spec a sortFn h (hperm a.abs)
+    (a.sort sortFn {}).1.abs.Perm a.abs ∧ (a.sort sortFn {}).1.abs.Pairwise (fun x y => ¬ gt x y) ∧
+    (a.sort sortFn {}).1.Inv ∧ (a.sort sortFn {}).1.size = a.size := by
+  obtain ⟨s1, s2, _, _, _, s6, _⟩ := sort_spec a sortFn {} h (hperm a.abs)
   rw [s2]
   exact ⟨hperm a.abs, hsorted a.abs, s1, s6⟩
 
